@@ -30,6 +30,9 @@ THEOREMS = ['numCmp_antisymm', 'numCmp_trans', 'compareVersionNumbers_numeric', 
             'between_numeric', 'admits_iff_numeric', 'available_iff_numeric', 'release_patch_ok',
             'slotStep_numeric', 'timeframe_fold_numeric', 'db_versions_order_safe', 'db_timeframe_numeric']
 EXTENSIONS = ['props.ext.C14_compat']
+# functions of the code whose Lean definitions are regenerated from the source on every run (harness/translate_logic.py); `GenLogic.<name>_eq_model`
+# (lean/SshAudit/Props/GenLogic*.lean) ties each to the hand-written model function the theorems above are about
+GEN_LOGIC = ['fix_date', 'get_ssh_version']
 TECHNIQUE = ('Lean 4 theorems (induction over component lists, generic lexicographic-order lemmas, finite case split over the OpenSSH patch grammar, '
              'kernel-evaluated obligation over the regenerated database) about a hand-written model of software.py/algorithm.py/timeframe.py '
              '+ differential correspondence with the Python code + independent numeric oracle on the real classes and on whole audits')
